@@ -98,7 +98,20 @@ func satTraceMode(rng *rand.Rand, n, maxCalls int, long bool) (rec, error) {
 		if voices < 1 {
 			voices = 1
 		}
+		idleMeta := n >= 2 && rng.Intn(2) == 0 // the conductor track says nothing while the voices play on: its delay passes a word
 		for i := 0; i < 36+rng.Intn(10); i++ {
+			if idleMeta {
+				k := 1 + rng.Intn(3)
+				keys := []uint8{}
+				for j := 0; j < voices; j++ {
+					keys = append(keys, uint8(60+j))
+				}
+				if err := w.Note(value(k), 64, keys...); err != nil {
+					return nil, err
+				}
+				emit(rec{"op": "note", "k": k, "n": voices})
+				continue
+			}
 			w.Tempo(60 + rng.Intn(180))
 			emit(rec{"op": "meta"})
 			if rng.Intn(4) == 0 {
@@ -116,6 +129,12 @@ func satTraceMode(rng *rand.Rand, n, maxCalls int, long bool) (rec, error) {
 				return nil, err
 			}
 			emit(rec{"op": "note", "k": k, "n": voices})
+		}
+		if idleMeta { // ... then speaks again (after a short rest)
+			w.Rest(value(1))
+			emit(rec{"op": "rest", "k": 1})
+			w.Tempo(120)
+			emit(rec{"op": "meta"})
 		}
 	}
 	for i := 0; i < calls; i++ {
@@ -195,7 +214,7 @@ func satMode(seed int64, tier, out string, n int) {
 	samples := []any{}
 	refused := 0
 	for i := 0; i < count; i++ {
-		r, err := satTraceMode(rng, n, maxCalls, i%25 == 24 && n <= 3)
+		r, err := satTraceMode(rng, n, maxCalls, i%12 == 11 && n <= 3)
 		if err != nil {
 			fmt.Fprintln(os.Stderr, "sat trace:", err)
 			os.Exit(2)
